@@ -2,8 +2,10 @@
    simulator.py, scan.py, types.py, simulation.py by harness/c15.py; do not edit.
    An unrecognised shape yields a *Unknown constructor / false, which breaks C15_facts_pinned. *)
 From Coq Require Import QArith ZArith NArith.
-From Steady Require Import SteadyLoop.
+From Steady Require Import SteadyLoop SteadyHist2.
 Definition gen_ss_facts : ss_facts :=
-  mkSSFacts 100%Z 1000%N CmpLt NormL2 PrevCopy RelDivPrev ExhaustFail SuccChecked true.
+  mkSSFacts 100%Z 1000%N CmpLt NormL2 PrevCopy RelUnknown ExhaustFail SuccChecked false.
 Definition gen_plumb_facts : plumb_facts :=
   mkPlumb true true (4722366482869645 # 4722366482869645213696)%Q.
+Definition gen_hist_facts : hist_facts :=
+  mkHistFacts HkSkipfirst LabModelNames true.
